@@ -22,6 +22,8 @@
      cs ss   client / server streaming                                   (method)
      alias   `option allow_alias = true;`                                (enum)
      dep     `[deprecated = true]`                                       (field, ext)
+     xopt    "" | "v" | "vr": all extension ranges of the message are written as ONE statement
+             `extensions r1, r2 [verification = UNVERIFIED(, (.a.zrep) = 7)];`                  (message)
      grp gof a GROUP `label group Zg = n { ... }` is two adjacent declarations: the message Zg (grp = TRUE,
              its members are the group's fields) and the field zg (gof = index of that message, type = Zg)
    Enum values carry their number in `num`.  A file carries x = TRUE (renderer: explicit
@@ -30,7 +32,7 @@ EXTENDS ProtoLang
 
 XD == [label |-> "", scalar |-> "", mapkey |-> "", dflt |-> "", json |-> "",
        xr |-> <<>>, rr |-> <<>>, rn |-> <<>>, cs |-> FALSE, ss |-> FALSE, alias |-> FALSE, dep |-> FALSE,
-       grp |-> FALSE, gof |-> 0]
+       grp |-> FALSE, gof |-> 0, xopt |-> ""]
 X(d) == d @@ XD
 XMsg(n, p) == X(Msg(n, p))
 XEnum(n, p) == X(Enum(n, p))
@@ -55,7 +57,8 @@ XGroup(name, p, num, label, idx) ==
 XFile(path, pkg, syntax, imports, decls) == FileRec(path, pkg, syntax, imports, decls) @@ [x |-> TRUE]
 
 (* google/protobuf/descriptor.proto in the extended record shape *)
-XDescriptorFile == [DescriptorFile EXCEPT !.decls = <<>> \o [i \in 1..Len(DescriptorFile.decls) |-> X(DescriptorFile.decls[i])]]
+XDescriptorFile == [DescriptorFile EXCEPT !.decls = (<<>> \o [i \in 1..Len(DescriptorFile.decls) |-> X(DescriptorFile.decls[i])])
+                                                  \o << X(Msg("ExtensionRangeOptions", 0)) >>]
                    @@ [x |-> TRUE]
 
 MaxFieldNum == 536870911
@@ -74,13 +77,28 @@ ScalarType ==
 (* N-json-name (protoc ToJsonName): drop every '_' and upper-case the character that follows it;
    the first character is NOT lower-cased.  TLC cannot look inside strings, so the rule is given
    as a table over the names the generators use; any name without '_' maps to itself. *)
-JsonTable == [z_f |-> "zF", z_g |-> "zG", a_b |-> "aB", z_m |-> "zM"]
+JsonTable == [z_f |-> "zF", z_g |-> "zG", a_b |-> "aB", z_m |-> "zM", _zu |-> "Zu", _zf |-> "Zf", X_zf |-> "XZf"]
 JsonNameOf(n) == IF n \in DOMAIN JsonTable THEN JsonTable[n] ELSE n
 (* N-map-entry-name (protoc MapEntryName): '_' dropped, the first character and every character
    after a '_' upper-cased, "Entry" appended.  Same remark: a table over the generator names. *)
 EntryTable == [zf |-> "ZfEntry", zg |-> "ZgEntry", zm |-> "ZmEntry", z_f |-> "ZFEntry", zF |-> "ZFEntry",
                z_m |-> "ZMEntry", a |-> "AEntry", b |-> "BEntry", m |-> "MEntry", a_b |-> "ABEntry"]
 EntryNameOf(n) == EntryTable[n]
+
+(* N-synthetic-oneof (protoc parser.cc GenerateSyntheticOneofs; descriptor.proto, proto3_optional):
+   the synthetic oneof of proto3-optional field f is named "_" + f -- f itself when it already starts
+   with '_' -- and "X" is prepended while the name is taken by a FIELD or ONEOF of the message or by a
+   synthetic oneof generated before it (fields in order).  protoc looks at nothing else: when such a
+   name equals another symbol of the message scope (nested type, enum, enum value, extension) protoc
+   reports a duplicate symbol, whereas this project documents that it deliberately avoids those names
+   too (parser/result.go) -- those workspaces are outside Covered (C27 still compares the compilers). *)
+UnderNames == {"_zu", "_zf"}                       \* the generator names that start with '_'
+SynthBase(n) == IF n \in UnderNames THEN n ELSE "_" \o n
+RECURSIVE XFree(_, _)
+XFree(nm, taken) == IF nm \in taken THEN XFree("X" \o nm, taken) ELSE nm
+RECURSIVE SynthSeq(_, _)
+SynthSeq(ns, taken) == IF ns = <<>> THEN <<>>
+                       ELSE LET o == XFree(SynthBase(Head(ns)), taken) IN <<o>> \o SynthSeq(Tail(ns), taken \cup {o})
 
 -----------------------------------------------------------------------------
 (* helpers over the declaration table *)
@@ -325,9 +343,18 @@ ValidV(ws) == Broken(ws) = {}
    - extensions carry no json_name
    - an option use `(name) = 1` must name a singular integer extension (or not resolve to one at
      all); oneofs carry no options
+   - range options "vr" need the repeated option extension .a.zrep = 1010 of ExtensionRangeOptions
    - allow_alias only on an enum that does have two values with one number (whether an unused
      allow_alias is an error in protoc 33 is not certain) *)
 CoveredX(ws, refs) ==
+  /\ \A g \in Files(ws) : \A m \in OfKind(ws[g], "message") :
+       /\ (ws[g].decls[m].xopt # "" => ws[g].decls[m].xr # <<>>)
+       /\ (ws[g].decls[m].xopt = "vr" =>
+             /\ ws[g].pkg = <<"a">>
+             /\ \E d \in ExtDecls(ws[g]) :
+                  LET x == ws[g].decls[d]
+                  IN x.name = "zrep" /\ x.parent = 0 /\ x.num = 1010 /\ x.label = "repeated" /\ x.scalar = "int32"
+                     /\ x.extendee = Abs(<<"google", "protobuf", "ExtensionRangeOptions">>))
   /\ \A fr \in OptRefs(refs) :
        LET x == ws[fr[2].exp.deffile].decls[fr[2].exp.defdecl]
        IN x.scalar \in IntScalars /\ x.label # "repeated" /\ ~IsRef(x.type)
@@ -348,6 +375,23 @@ CoveredX(ws, refs) ==
             /\ \A d2 \in Flds(F) : (d2 # d /\ ScopeParent(F, d2) = ScopeParent(F, d)) =>
                  /\ dl.json # JsonNameOf(F.decls[d2].name) /\ dl.json # F.decls[d2].json
                  /\ JsonNameOf(dl.name) # JsonNameOf(F.decls[d2].name)
+
+(* proto3-optional fields of message m in field order, and their synthetic oneof names *)
+P3Opt(F, m) == SelectSeq(FieldSeq(F, m), LAMBDA d : F.syntax = "proto3" /\ F.decls[d].label = "optional" /\ ~InOneof(F, d))
+SynthNamesOf(F, m) ==
+  LET kids == KidSeq(F, m)
+      taken == {F.decls[d].name : d \in Range(FieldSeq(F, m))}
+               \cup {F.decls[c].name : c \in {x \in Range(kids) : F.decls[x].kind = "oneof"}}
+  IN SynthSeq(MapSeq(P3Opt(F, m), LAMBDA d : F.decls[d].name), taken)
+(* names in the scope of m that protoc does not look at when it names synthetic oneofs *)
+OtherScopeNames(F, m) == {F.decls[d].name : d \in {x \in Decls(F) : ScopeParent(F, x) = m /\ F.decls[x].kind \notin {"field", "oneof"}}}
+
+(* SynthCertain: no synthetic oneof name meets a nested type / enum / enum value / extension of its
+   message.  Where it fails protoc and the project differ on purpose (N-synthetic-oneof): such
+   workspaces are still generated, flagged, skipped by C01 / C02 and compared by C27 only. *)
+SynthCertain(ws) ==
+  \A g \in {h \in Files(ws) : ~ws[h].builtin} : \A m \in OfKind(ws[g], "message") :
+    Range(SynthNamesOf(ws[g], m)) \cap OtherScopeNames(ws[g], m) = {}
 
 -----------------------------------------------------------------------------
 (* DESCRIPTOR: the abstract projection of the FileDescriptorProto protoc writes for a valid file
@@ -425,6 +469,9 @@ MapEntryD(ws, env, g, d) ==
                    @@ Opt(IsRef(dl.type), [type_name |-> Dot(e.fqn)]) >>]
 
 RangeD(r) == [start |-> r[1], end |-> r[2] + 1]
+(* D-range-options: options written on an `extensions` statement belong to EVERY range of that
+   statement, each option value once (protoc's parser copies the options into each range) *)
+XRangeD(r, xopt) == RangeD(r) @@ Opt(xopt # "", [verification |-> "UNVERIFIED"]) @@ Opt(xopt = "vr", [rep |-> <<7>>])
 
 RECURSIVE MsgD(_, _, _, _)
 MsgD(ws, env, g, m) ==
@@ -447,9 +494,8 @@ MsgD(ws, env, g, m) ==
             [extension |-> MapSeq(SelectSeq(kids, LAMBDA c : F.decls[c].kind = "ext"),
                                   LAMBDA c : FieldD(ws, env, g, c, 0))])
      @@ Opt(oneofs # <<>> \/ p3opt # <<>>,
-            [oneof_decl |-> MapSeq(oneofs, LAMBDA c : F.decls[c].name)
-                            \o MapSeq(p3opt, LAMBDA d : "_" \o F.decls[d].name)])
-     @@ Opt(dl.xr # <<>>, [extension_range |-> MapSeq(dl.xr, RangeD)])
+            [oneof_decl |-> MapSeq(oneofs, LAMBDA c : F.decls[c].name) \o SynthNamesOf(F, m)])
+     @@ Opt(dl.xr # <<>>, [extension_range |-> MapSeq(dl.xr, LAMBDA r : XRangeD(r, dl.xopt))])
      @@ Opt(dl.rr # <<>>, [reserved_range |-> MapSeq(dl.rr, RangeD)])
      @@ Opt(dl.rn # <<>>, [reserved_name |-> dl.rn])
      @@ OptsD(ws, env, g, m)
@@ -493,7 +539,7 @@ DeclVX(d) ==
   @@ Opt(d.json # "", [json |-> d.json]) @@ Opt(d.xr # <<>>, [xr |-> d.xr]) @@ Opt(d.rr # <<>>, [rr |-> d.rr])
   @@ Opt(d.rn # <<>>, [rn |-> d.rn]) @@ Opt(d.cs, [cs |-> TRUE]) @@ Opt(d.ss, [ss |-> TRUE])
   @@ Opt(d.alias, [alias |-> TRUE]) @@ Opt(d.dep, [dep |-> TRUE])
-  @@ Opt(d.grp, [grp |-> TRUE]) @@ Opt(d.gof # 0, [gof |-> d.gof])
+  @@ Opt(d.grp, [grp |-> TRUE]) @@ Opt(d.gof # 0, [gof |-> d.gof]) @@ Opt(d.xopt # "", [xopt |-> d.xopt])
 FileVX(F) ==
   [path |-> F.path, pkg |-> F.pkg, syntax |-> F.syntax, imports |-> F.imports, x |-> TRUE,
    decls |-> MapSeq(IdxSeq(Len(F.decls)), LAMBDA d : DeclVX(F.decls[d]))]
